@@ -381,4 +381,105 @@ theorem derivedSpecD_wf_ok {Pi M : Nat} {plains : List Nat} {S : List Ev} (h : W
       simp only [plainEv, Elem.ofTok, List.mem_singleton] at hy
       rw [hy]; rfl
 
+theorem elemOK_lift {S : List Ev} (hr : Rooted S) {e : Ev} (he : e ∈ S) : ElemOK (liftEv e).2 := by
+  refine ⟨hr e he, by simp [liftEv, Elem.ofTok], ?_⟩
+  intro y hy
+  simp only [liftEv, Elem.ofTok, List.mem_singleton] at hy
+  rw [hy]; rfl
+
+theorem canonEv_plain {M : Nat} (items : List Item) {e : Ev} (he : e.1 < M) :
+    canonEv M (plainEv items e) = plainEv items e := by
+  unfold canonEv plainEv
+  have : normEmit M [(e.1, e.2)] = [(e.1, e.2)] :=
+    normEmit_eq_of_sorted (List.Perm.refl _) (by simpa using he) (by simp) (by simp)
+  simp [Elem.ofTok, this]
+
+/-- **nested `dot[dot[p0 … p(Pi-1)], plain ports]`, any arrival order.** The outer combinator is fed a stream `D`
+    of elements which — after sorting the entries of every element by port — is a permutation of the specified
+    element stream `derivedSpecD` (a function of the input stream only: the specified emissions of the inner dot
+    product and the tokens of the plain ports), and it emits, schema by schema up to the order of the entries,
+    exactly one combination per complete tag of `D`. -/
+theorem nested_dot_any_order {Pi M : Nat} {plains : List Nat} (S es : List Ev) (h : WFNestD Pi M plains S)
+    (hp : es.Perm S) :
+    ∃ D N, (D.map (canonEv M)).Perm (derivedSpecD Pi plains S) ∧
+      EmRel (runNested (nestItemsD Pi plains) es).out N ∧ N.Perm (specE (plains.length + 1) D) := by
+  have hin : (es.filter (isInner Pi)).Perm (S.filter (isInner Pi)) := hp.filter _
+  have hwfI := WFDot_perm hin h.inner
+  have hRwf := wf_of_WFDot hwfI
+  have hRwfS := wf_of_WFDot h.inner
+  -- the inner run
+  obtain ⟨herr0, hrel0⟩ := runWithE_sim (P := Pi) ((es.filter (isInner Pi)).map liftEv) [] CF.init [] []
+    (by simpa using hRwf)
+    (by
+      intro x hx
+      simp only [List.nil_append] at hx
+      obtain ⟨e, he, rfl⟩ := List.mem_map.mp hx
+      exact elemOK_lift hwfI.2.2.1 he)
+    (CF.inv_init Pi) (valid_nil Pi) rfl rfl EmRel.nil
+  rw [← runWith_eq_runWithE] at herr0 hrel0
+  have hN0 : (((es.filter (isInner Pi)).map liftEv).foldl (CF.step Pi) CF.init).out.Perm
+      (specE Pi ((S.filter (isInner Pi)).map liftEv)) :=
+    (CF.out_perm Pi _ _ (hin.map liftEv) hRwfS).trans (CF_out_perm_specE hRwfS)
+  generalize hN0def : (((es.filter (isInner Pi)).map liftEv).foldl (CF.step Pi) CF.init).out = N0 at hrel0 hN0
+  generalize hout0 : (runWith (dotAdd Pi) (es.filter (isInner Pi)) [] []).out = out0 at hrel0
+  -- every actual inner emission against its specified emission
+  have hpair : ∀ s x, x ∈ N0 → s.Perm (renderCF x.1 x.2) →
+      schemaTag s = x.1 ∧ normEmit M s = renderCF x.1 x.2 ∧ s ≠ [] ∧ (∀ y ∈ s, y.2.tag = x.1) ∧
+      x.1.head? = some 0 := by
+    intro s x hx hs
+    obtain ⟨f1, f2, f3, f4, f5, _, _⟩ := inner_member_facts h.pos h.inner (hN0.subset hx)
+    have hsne : s ≠ [] := by
+      intro h0; rw [h0] at hs
+      exact f2 (List.nil_perm.mp hs)
+    have hst : ∀ y ∈ s, y.2.tag = x.1 := fun y hy => (f3 y (hs.subset hy)).1
+    refine ⟨schemaTag_uniform hsne f1 hst, ?_, hsne, hst, f1⟩
+    exact normEmit_eq_of_sorted hs (fun y hy => Nat.lt_of_lt_of_le (f3 y (hs.subset hy)).2 h.bound.1) f4 f5
+  -- the derived stream
+  have hsplit := derived_splitD Pi plains es [] (by simpa using herr0)
+  simp only [List.lookup, Option.getD_none] at hsplit
+  rw [hout0] at hsplit
+  have hcanA : (out0.map mk0).map (canonEv M) = N0.map innerEv := by
+    rw [List.map_map]
+    apply hrel0.map_eq
+    intro s x hx hs
+    obtain ⟨h1, h2, _, _, _⟩ := hpair s x hx hs
+    simp only [Function.comp, canonEv, mk0, innerEv, h1, h2]
+  have hcanB : ((es.filter (fun e => !isInner Pi e)).map (plainEv (nestItemsD Pi plains))).map (canonEv M)
+      = (es.filter (fun e => !isInner Pi e)).map (plainEv (nestItemsD Pi plains)) := by
+    rw [List.map_map]
+    apply List.map_congr_left
+    intro e he
+    exact canonEv_plain _ (h.bound.2 e (hp.subset (List.mem_filter.mp he).1))
+  have hD : ((derived (nestItemsD Pi plains) es []).map (canonEv M)).Perm (derivedSpecD Pi plains S) := by
+    refine (hsplit.map (canonEv M)).trans ?_
+    rw [List.map_append, hcanA, hcanB]
+    unfold derivedSpecD
+    exact (hN0.map innerEv).append ((hp.filter _).map _)
+  obtain ⟨hwfS, _⟩ := derivedSpecD_wf_ok h
+  have hwfD : CF.WF (plains.length + 1) (derived (nestItemsD Pi plains) es []) :=
+    WF_of_map (canonEv M) (fun x => ⟨rfl, rfl⟩) (CF.WF_perm _ hD hwfS)
+  have hokD : ∀ x ∈ derived (nestItemsD Pi plains) es [], ElemOK x.2 := by
+    intro x hx
+    rcases List.mem_append.mp (hsplit.subset hx) with hx | hx
+    · obtain ⟨s, hs, rfl⟩ := List.mem_map.mp hx
+      obtain ⟨x0, hx0, hsx⟩ := hrel0.mem_left hs
+      obtain ⟨h1, _, h3, h4, h5⟩ := hpair s x0 hx0 hsx
+      refine ⟨?_, h3, ?_⟩
+      · show (schemaTag s).head? = some 0
+        rw [h1]; exact h5
+      · intro y hy
+        show y.2.tag = schemaTag s
+        rw [h1]; exact h4 y hy
+    · obtain ⟨e, he, rfl⟩ := List.mem_map.mp hx
+      have heS := hp.subset (List.mem_filter.mp he).1
+      refine ⟨h.rooted e heS, by simp [plainEv, Elem.ofTok], ?_⟩
+      intro y hy
+      simp only [plainEv, Elem.ofTok, List.mem_singleton] at hy
+      rw [hy]; rfl
+  have hlen : (nestItemsD Pi plains).length = plains.length + 1 := by simp [nestItemsD]
+  obtain ⟨_, N, hN1, hN2⟩ := dotElems_any_order _ _ hwfD hokD (List.Perm.refl _)
+  refine ⟨_, N, hD, ?_, hN2⟩
+  rw [runNested_out, hlen]
+  exact hN1
+
 end SFV.Comb
